@@ -99,6 +99,8 @@ class Harness:
             rc, out, _ = self.run(["merge", w["a"], w["b"]])
         elif kind == "ops":
             rc, out, _ = self.run(["ops"] + w["ops"].split())
+        elif kind == "far":
+            rc, out, _ = self.run(["far", w["property"]])
         else:
             files = []
             for i, h in enumerate(w.get("docs_hex", [])):
